@@ -16,11 +16,13 @@ def expr(rng, depth):
     if r < 0.60:
         l, rr = operand(rng, depth - 1, "l"), operand(rng, depth - 1, "r")
         return "%s + %s" % (l, rr)
-    if r < 0.63:
+    if r < 0.65:
         # a property read (also through / ending in `prototype`: X.prototype.m(..) is not an instrumented receiver)
         recv = expr(rng, depth - 1)
         if is_sum(recv) or has_top_optional(recv):
             recv = "(%s)" % recv
+        if rng.random() < 0.35:
+            return "%s[%s]" % (recv, expr(rng, depth - 1))       # a property read with a computed key
         return "%s.%s" % (recv, rng.choice(["p", "q", "length", "prototype", "p.q", "prototype.x"]))
     if r < 0.66:
         return "(%s)" % expr(rng, depth - 1)
